@@ -263,7 +263,7 @@ def check_extraction(chk, v, rule="R5"):
         within = sym.sub(p["lv"][2], sym.mul(i, N))       # position inside component i's block of N coefficients
         if sym.contains(within, i):
             chk.broken("tLweExtractLweSampleIndex: destination index %s is not i*N + (a term of the inner loop)" % sym.show(p["lv"][2]))
-        if (il["lo"], il["cmp"], il["hi"]) != (ZERO, "<", K):
+        if not summ.visits(il, ZERO, K):
             problems.append("component loop covers [%s %s %s), expected [0,k)" % (sym.show(il["lo"]), il["cmp"], sym.show(il["hi"])))
         src_arr = sym.fld(sym.idx(P(x, "a"), i), "coefsT")
         q = dict(p)
